@@ -117,7 +117,178 @@ func (c *Ctx) spawns(pkg string) []spawn {
 // lexerRole returns the functions that run in the goroutine started at root,
 // not following calls into yyParse (which works on another lexer instance).
 func (c *Ctx) lexerRole(root *core.Func) map[*core.Func]bool {
-	return c.P.CG().ReachableStop(func(g *core.Func) bool { return g.Short == "yyParse" }, root)
+	key := "lexerRole:" + root.Name
+	if v, ok := c.cache[key]; ok {
+		return v.(map[*core.Func]bool)
+	}
+	spawnVars := map[types.Object]bool{}
+	for _, sp := range c.spawns(root.Pkg.Name) {
+		spawnVars[sp.Var] = true
+	}
+	cg := c.P.CG()
+	out := map[*core.Func]bool{root: true}
+	work := []*core.Func{root}
+	for len(work) > 0 {
+		f := work[0]
+		work = work[1:]
+		info := f.Info()
+		// calls made on (or handed) a lexer this function has spawned itself concern that
+		// other instance, for which this goroutine plays the parser's part
+		other := map[*ast.CallExpr]bool{}
+		f.OwnNodes(func(n ast.Node) bool {
+			call, ok := n.(*ast.CallExpr)
+			if !ok {
+				return true
+			}
+			isSpawned := func(e ast.Expr) bool {
+				id, ok := ast.Unparen(e).(*ast.Ident)
+				return ok && spawnVars[info.Uses[id]]
+			}
+			if se, ok := ast.Unparen(call.Fun).(*ast.SelectorExpr); ok && isSpawned(se.X) {
+				other[call] = true
+			}
+			for _, a := range call.Args {
+				if isSpawned(a) {
+					other[call] = true
+				}
+			}
+			return true
+		})
+		var next []*core.Func
+		f.OwnNodes(func(n ast.Node) bool {
+			call, ok := n.(*ast.CallExpr)
+			if !ok || other[call] {
+				return true
+			}
+			if _, isGo := c.P.Parent(call).(*ast.GoStmt); isGo {
+				return true
+			}
+			next = append(next, cg.Callees(f, call)...)
+			return true
+		})
+		next = append(next, f.Lits...)
+		for _, g := range next {
+			if g == nil || out[g] || g.Short == "yyParse" {
+				continue
+			}
+			out[g] = true
+			work = append(work, g)
+		}
+	}
+	c.cache[key] = out
+	return out
+}
+
+// joiners are the methods that wait for the lexer goroutine of their receiver
+// before they return: a receive from the receiver's done channel is a
+// statement of the body itself (under no condition) and no return statement
+// comes before it.
+func (c *Ctx) joiners(pkg string) map[*core.Func]bool {
+	key := "joiners:" + pkg
+	if v, ok := c.cache[key]; ok {
+		return v.(map[*core.Func]bool)
+	}
+	out := map[*core.Func]bool{}
+	done := c.fieldVar(pkg, "lexer", "done")
+	for _, f := range c.funcsOfPkg(pkg, false) {
+		if done == nil || f.Decl == nil || f.Decl.Recv == nil || len(f.Decl.Recv.List) != 1 || len(f.Decl.Recv.List[0].Names) != 1 {
+			continue
+		}
+		info := f.Info()
+		recv := info.Defs[f.Decl.Recv.List[0].Names[0]]
+		var at token.Pos
+		for _, st := range f.Body.List {
+			es, ok := st.(*ast.ExprStmt)
+			if !ok {
+				continue
+			}
+			u, ok := ast.Unparen(es.X).(*ast.UnaryExpr)
+			if !ok || u.Op != token.ARROW || core.FieldOf(info, u.X) != done {
+				continue
+			}
+			if id, ok := ast.Unparen(u.X.(*ast.SelectorExpr).X).(*ast.Ident); ok && info.Uses[id] == recv {
+				at = st.Pos()
+				break
+			}
+		}
+		if at == token.NoPos {
+			continue
+		}
+		early := false
+		f.OwnNodes(func(n ast.Node) bool {
+			if r, ok := n.(*ast.ReturnStmt); ok && r.Pos() < at {
+				early = true
+			}
+			return true
+		})
+		if !early {
+			out[f] = true
+		}
+	}
+	c.cache[key] = out
+	return out
+}
+
+// isJoinOf recognises the join of the lexer held in v: `<-v.done`, or a call
+// of a joiner method on v.
+func (c *Ctx) isJoinOf(pkg string, info *types.Info, v types.Object) func(ast.Node) bool {
+	done := c.fieldVar(pkg, "lexer", "done")
+	joiners := c.joiners(pkg)
+	return func(n ast.Node) bool {
+		switch x := n.(type) {
+		case *ast.UnaryExpr:
+			if x.Op != token.ARROW || done == nil || core.FieldOf(info, x.X) != done {
+				return false
+			}
+			id, ok := ast.Unparen(x.X.(*ast.SelectorExpr).X).(*ast.Ident)
+			return ok && info.Uses[id] == v
+		case *ast.CallExpr:
+			se, ok := ast.Unparen(x.Fun).(*ast.SelectorExpr)
+			if !ok {
+				return false
+			}
+			id, ok := ast.Unparen(se.X).(*ast.Ident)
+			if !ok || info.Uses[id] != v {
+				return false
+			}
+			if fo := core.StaticCallee(info, x); fo != nil {
+				return joiners[c.P.FuncOf(fo)]
+			}
+		}
+		return false
+	}
+}
+
+// receiverAccesses lists the unprotected accesses a method makes to shared
+// fields through its receiver, its own and those of the methods it calls on
+// the receiver (two levels).
+func (c *Ctx) receiverAccesses(m *core.Func, fields map[*types.Var]string, depth int) []access {
+	if m == nil || m.Decl == nil || m.Decl.Recv == nil || len(m.Decl.Recv.List) != 1 || len(m.Decl.Recv.List[0].Names) != 1 || depth > 2 {
+		return nil
+	}
+	info := m.Info()
+	recv := info.Defs[m.Decl.Recv.List[0].Names[0]]
+	var out []access
+	for _, a := range c.accesses(m, fields) {
+		if a.via == recv && a.prot == "" {
+			out = append(out, a)
+		}
+	}
+	m.OwnNodes(func(n ast.Node) bool {
+		call, ok := n.(*ast.CallExpr)
+		if !ok {
+			return true
+		}
+		if se, ok := ast.Unparen(call.Fun).(*ast.SelectorExpr); ok {
+			if id, ok := ast.Unparen(se.X).(*ast.Ident); ok && info.Uses[id] == recv {
+				if fo := core.StaticCallee(info, call); fo != nil {
+					out = append(out, c.receiverAccesses(c.P.FuncOf(fo), fields, depth+1)...)
+				}
+			}
+		}
+		return true
+	})
+	return out
 }
 
 // parserRole returns the functions that run in the parser's goroutine with
@@ -321,7 +492,6 @@ func ruleCC2(pkgs ...string) Rule {
 		Run: func(c *Ctx, rr *core.RuleResult) {
 			for _, pkg := range pkgs {
 				fields := c.sharedStructFields(pkg)
-				done := c.fieldVar(pkg, "lexer", "done")
 				sps := c.spawns(pkg)
 				if len(sps) == 0 {
 					rr.Unkp(c.P, pkg+"|spawns", 0, "no lexer goroutine is started in package "+pkg)
@@ -348,18 +518,48 @@ func ruleCC2(pkgs ...string) Rule {
 					}
 					fl := core.NewFlow(f)
 					after := fl.Reaches(func(n ast.Node) bool { return n == sp.At }, nil)
-					joined := fl.MustSeen(false, func(n ast.Node) bool {
-						u, ok := n.(*ast.UnaryExpr)
-						if !ok || u.Op != token.ARROW || done == nil {
-							return false
-						}
-						if core.FieldOf(info, u.X) != done {
-							return false
-						}
-						id, ok := ast.Unparen(u.X.(*ast.SelectorExpr).X).(*ast.Ident)
-						return ok && info.Uses[id] == sp.Var
-					}, func(n ast.Node) bool { return n == sp.At })
+					joined := fl.MustSeen(false, c.isJoinOf(pkg, info, sp.Var), func(n ast.Node) bool { return n == sp.At })
 					n := 0
+					// what the methods called on the spawned lexer read and write through their receiver
+					// happens, for this purpose, at the call
+					f.OwnNodes(func(x ast.Node) bool {
+						call, ok := x.(*ast.CallExpr)
+						if !ok || !after[call] || call.Pos() < sp.At.Pos() && !inLoop(c.P, sp.At) {
+							return true
+						}
+						if gs, isGo := sp.At.(*ast.GoStmt); isGo && gs.Call == call {
+							return true // the spawn itself
+						}
+						se, ok := ast.Unparen(call.Fun).(*ast.SelectorExpr)
+						if !ok {
+							return true
+						}
+						id, ok := ast.Unparen(se.X).(*ast.Ident)
+						if !ok || info.Uses[id] != sp.Var {
+							return true
+						}
+						fo := core.StaticCallee(info, call)
+						if fo == nil {
+							return true
+						}
+						m := c.P.FuncOf(fo)
+						seen := map[*types.Var]bool{}
+						for _, a := range c.receiverAccesses(m, fields, 0) {
+							fv := core.FieldOf(a.f.Info(), a.node)
+							if seen[fv] || !touched[fv] || !c.writtenAfterCtor(pkg, fv) {
+								continue
+							}
+							seen[fv] = true
+							n++
+							key := fmt.Sprintf("%s|%s: %s after %s", f.Name, exprStr(call.Fun), fields[fv], spawnStr(sp))
+							if joined[call] {
+								rr.OK(f, key, call.Pos(), "joined", "the method's access to "+fields[fv]+" is preceded on every path by the join of "+sp.Var.Name())
+							} else {
+								rr.Bad(f, key, call.Pos(), fmt.Sprintf("%s %s %s while the lexer goroutine started at %s may still be running (no join, lock or atomic): a data race", exprStr(call.Fun), map[bool]string{true: "writes", false: "reads"}[a.write], fields[fv], c.P.PosString(sp.At.Pos())))
+							}
+						}
+						return true
+					})
 					for _, a := range c.accesses(f, fields) {
 						if a.via != sp.Var || !after[a.node] || a.node.Pos() < sp.At.Pos() && !inLoop(c.P, sp.At) {
 							continue
@@ -384,14 +584,7 @@ func ruleCC2(pkgs ...string) Rule {
 					for _, lit := range f.Lits {
 						li := lit.Info()
 						lfl := core.NewFlow(lit)
-						ljoined := lfl.MustSeen(false, func(x ast.Node) bool {
-							u, ok := x.(*ast.UnaryExpr)
-							if !ok || u.Op != token.ARROW || done == nil || core.FieldOf(li, u.X) != done {
-								return false
-							}
-							id, ok := ast.Unparen(u.X.(*ast.SelectorExpr).X).(*ast.Ident)
-							return ok && li.Uses[id] == sp.Var
-						}, nil)
+						ljoined := lfl.MustSeen(false, c.isJoinOf(pkg, li, sp.Var), nil)
 						for _, a := range c.accesses(lit, fields) {
 							fv := core.FieldOf(li, a.node)
 							if a.via != sp.Var || !touched[fv] || a.prot != "" || !c.writtenAfterCtor(pkg, fv) {
